@@ -177,7 +177,7 @@ def judge(case, mdl, shadow, res, name):
             elif a != "no_adapter":
                 if a[2:] != b[2:]:
                     viols.append(C.V("pair-adapters", f"{name}: pair {i}: mates trimmed by adapters of different rank ({a}, {b})"))
-            elif plain and action != "lowercase":
+            elif plain:  # (also with --action=lowercase: unlike AdapterCutter, nothing is upper-cased)
                 src = byid[i]
                 if w["r1"][1] != src[3] or w["r2"][1] != src[5]:
                     viols.append(C.V("pair-adapters", f"{name}: pair {i}: no adapter pair matched but the mates were changed"))
